@@ -163,6 +163,12 @@ example : ∀ o ∈ demo, SecretsGateOut.IsKsSign o = false := by decide
 /-- hypothesis of `gate` / `right_pass_unlocks` is satisfiable: the wallet is there after the history -/
 example : AMap.get (reach demo).wal "W1" = some (⟨"W1", "5a7140506173733132", 1, 0⟩, {}) := by decide
 
+/-- hypothesis of `sign_locks_again` is satisfiable -/
+example : (AMap.get (reach demo).wal "W1").isSome = true := by decide
+
+/-- hypothesis of `no_clear_secret_from` is satisfiable (and by every reachable state: `visible_opaque`) -/
+example : ∀ t ∈ visible ({} : St), pubOk t = true := by decide
+
 /-- hypothesis of `gate_import` is satisfiable -/
 example : (AMap.get (reach demo).exports "K1").isSome = true := by decide
 
